@@ -168,6 +168,6 @@ def main():
     }
     json.dump(m, open(os.path.join(HERE, "MANIFEST.json"), "w"), indent=1)
 
-HOOK_COMMITS = ['e2ca3fb', '4a4f2dc', 'ef2c561', '945c7ec']
+HOOK_COMMITS = ['e2ca3fb', '4a4f2dc', 'ef2c561', '945c7ec', '3f6b88d', '0afa1b8']
 if __name__ == "__main__":
     main()
